@@ -13,6 +13,7 @@ import (
 	"github.com/olive-io/bpmn/schema"
 	bpmn "github.com/olive-io/bpmn/v2"
 	"github.com/olive-io/bpmn/v2/pkg/clock"
+	"github.com/olive-io/bpmn/v2/pkg/event"
 	"github.com/olive-io/bpmn/v2/pkg/timer"
 
 	"verif/internal/drive"
@@ -107,6 +108,14 @@ func c13Cases(tier string, seed uint64) []fw.Case {
 			c := c13Case{Level: "process", Def: d, Prefix: []int{a}, MaxLen: 3, Seed: seed}
 			c.Name = fmt.Sprintf("process/%s/%s", d, mvNames[a])
 			cs = append(cs, fw.MkCase("process", &c))
+		}
+	}
+	// two instances of one definitions model on one event bus and one clock, created at different times
+	for _, d := range []c13Def{{Kind: "date"}, {Kind: "duration"}, {Kind: "cycle", N: 3}, {Kind: "cycle", N: -1}, {Kind: "cycle", N: 1}} {
+		for a := 0; a < 5; a++ {
+			c := c13Case{Level: "pair", Def: d, Prefix: []int{a}, MaxLen: 3, Seed: seed}
+			c.Name = fmt.Sprintf("pair/%s/%d", d, a)
+			cs = append(cs, fw.MkCase("pair", &c))
 		}
 	}
 	return fw.Number(cs)
@@ -531,6 +540,154 @@ func c13ProcessHistory(c *c13Case, kind, val string, hist []int, env *fw.Env, v 
 	return true
 }
 
+// pair level: two instances created from the SAME definitions value share one event bus and one mock
+// clock; the second is created two and a half intervals after the first, so relative timers are due at
+// different times. Each instance's catch event must continue for its own timer's firing only.
+// moves: 0 = first instance's next due time - 1ns, 1 = exactly that, 2 = second's - 1ns, 3 = exactly that, 4 = +half interval
+func c13Pair(c *c13Case, env *fw.Env, v *fw.V) {
+	_, val := c.Def.text()
+	kind := c.Def.Kind
+	var rec func(h []int)
+	n := 0
+	stop := false
+	rec = func(h []int) {
+		if stop {
+			return
+		}
+		if len(h) >= 1 {
+			n++
+			fw.Rep(env, n, func(env *fw.Env) {
+				if !c13PairHistory(c, kind, val, h, env, v) {
+					stop = true
+				}
+			})
+		}
+		if len(h) == c.MaxLen {
+			return
+		}
+		for m := 0; m < 5; m++ {
+			rec(append(append([]int(nil), h...), m))
+		}
+	}
+	rec(append([]int(nil), c.Prefix...))
+	v.Add("histories", n)
+}
+
+func c13PairHistory(c *c13Case, kind, val string, hist []int, env *fw.Env, v *fw.V) bool {
+	g := gen.NewGraph("c13")
+	s := g.Add(gen.Start, "start", "")
+	ce := g.Add(gen.Catch, "c", "")
+	ce.Events = []gen.EventDef{{Type: "timer", Time: kind + ":" + val}}
+	t := g.Add(gen.Task, "t", "")
+	e := g.Add(gen.End, "end", "")
+	g.Connect(s, ce, nil)
+	g.Connect(ce, t, nil)
+	g.Connect(t, e, nil)
+	defs, _, err := step.Parse(g)
+	if err != nil {
+		v.Inconclusive("parse", "%v", err)
+		return false
+	}
+	perturb.Off()
+	mock := clock.NewMockAt(c13Base)
+	fan := event.NewFanOut()
+	cls := "pair-" + c.Def.String()
+	var ins [2]*drive.Inst
+	var refs [2]*c13Ref
+	var expect [2]int
+	now := c13Base
+	settle := func() bool {
+		for _, in := range ins {
+			if in == nil {
+				continue
+			}
+			q := in.Quiesce(step.Watchdog)
+			v.Add("qpoints", 1)
+			if !q.Quiescent {
+				v.Inconclusive("watchdog", "no quiescent point: %v", quiesce.Summary(q.Gs))
+				return false
+			}
+		}
+		return true
+	}
+	check := func(what string) bool {
+		for i, in := range ins {
+			if in == nil {
+				continue
+			}
+			if got := in.Count("Task", "t"); got != expect[i] {
+				v.Violate("pair-continuations", cls, "%s: instance %d (created at +%v; clock now +%v) has its task behind the timer catch event requested %d times, expected %d", what, i, []time.Duration{0, 150 * time.Second}[i], now.Sub(c13Base), got, expect[i])
+				v.Log = in.Tail(30)
+				return false
+			}
+		}
+		return true
+	}
+	set := func(t time.Time) {
+		now = t
+		mock.Set(t)
+		for i, r := range refs {
+			if r != nil && r.advance(now) > 0 && expect[i] == 0 {
+				expect[i] = 1
+			}
+		}
+	}
+	mk := func(i int) bool {
+		in, err := drive.New(env.Label, defs, drive.Opts{Mock: mock, Fan: fan})
+		if err != nil {
+			v.Violate("new-process-error", "error", "%v", err)
+			return false
+		}
+		ins[i] = in
+		refs[i] = newC13Ref(c.Def, now)
+		if err := in.Start(); err != nil {
+			v.Violate("start-error", "error", "%v", err)
+			return false
+		}
+		return settle()
+	}
+	defer func() {
+		for _, in := range ins {
+			if in != nil {
+				in.Cancel()
+			}
+		}
+	}()
+	if !mk(0) {
+		return false
+	}
+	set(c13Base.Add(150 * time.Second))
+	if !settle() || !check("before the second instance is created") {
+		return false
+	}
+	if !mk(1) || !check("after the second instance was created") {
+		return false
+	}
+	for i, mv := range hist {
+		var t time.Time
+		switch mv {
+		case 0:
+			t = refs[0].due.Add(-time.Nanosecond)
+		case 1:
+			t = refs[0].due
+		case 2:
+			t = refs[1].due.Add(-time.Nanosecond)
+		case 3:
+			t = refs[1].due
+		default:
+			t = now.Add(c13Interval / 2)
+		}
+		if t.Before(now) {
+			return true
+		}
+		set(t)
+		if !settle() || !check(fmt.Sprintf("after clock moves %v", hist[:i+1])) {
+			return false
+		}
+	}
+	return true
+}
+
 func init() {
 	fw.Register(&fw.Prop{
 		ID:    "C13",
@@ -544,13 +701,15 @@ func init() {
 			}
 			if cc.Level == "timer" {
 				c13Timer(&cc, env, v)
+			} else if cc.Level == "pair" {
+				c13Pair(&cc, env, v)
 			} else {
 				c13Process(&cc, env, v)
 			}
 			v.Nontrivial = v.Stats["histories"] > 0
 			return v
 		},
-		Rule:        "timer.New driven directly over an instrumented mock clock: definitions {date, duration, cycle R0/R1/R2/R3/unbounded, explicit start, end bound, start/end form} x ALL sequences of up to 4 (quick) / 6 (thorough) clock moves from the grid {due-1ns, exactly due, due+1ns, +half interval, +10 intervals, -1 interval (backwards)} resolved against the reference's next due time x cancellation after each prefix (quick: every point; thorough: one PRNG point per history); quiescence after every move; rules: never early / >= one interval apart (each firing's clock reading >= previous + interval), never more than n, never at/after end, none after cancel, and exact count at every step for monotone histories; process level: start -> timer catch -> task with up to 3 moves; a case = one shard of the enumeration; 'measured.histories' = histories executed",
+		Rule:        "timer.New driven directly over an instrumented mock clock: definitions {date, duration, cycle R0/R1/R2/R3/unbounded, explicit start, end bound, start/end form} x ALL sequences of up to 4 (quick) / 6 (thorough) clock moves from the grid {due-1ns, exactly due, due+1ns, +half interval, +10 intervals, -1 interval (backwards)} resolved against the reference's next due time x cancellation after each prefix (quick: every point; thorough: one PRNG point per history); quiescence after every move; rules: never early / >= one interval apart (each firing's clock reading >= previous + interval), never more than n, never at/after end, none after cancel, and exact count at every step for monotone histories; process level: start -> timer catch -> task with up to 3 moves; pair level: two instances of one definitions value on one event bus and one clock, the second created 2.5 intervals after the first, up to 3 moves from {either instance's due time - 1ns / exactly, +half}: each instance continues for its own timer only; a case = one shard of the enumeration; 'measured.histories' = histories executed",
 		Exhaustive:  func(string) bool { return true },
 		Assumptions: []string{"only mock-clock histories; the host clock (real time, timerfd) is out of reach of a deterministic oracle and is not claimed"},
 		Batch:       3,
